@@ -412,3 +412,16 @@ Print Assumptions C13_env_fork_reports_both_heads.
 (* non-vacuity of env_ok: the idle environment of any length *)
 Example C13_env_ok_idle : forall node_hash V vs k, env_ok node_hash V vs (repeat (fun _ _ => None) k).
 Proof. intros. unfold env_ok. apply Forall_forall. intros f Hin. apply repeat_spec in Hin. subst f. intros L Lm t m [=]. Qed.
+
+(* WHAT REMAINS OUTSIDE THE COQ THEOREMS
+   * whole-Lookup interleavings between clients (two lookups of different clients overlapping on the
+     configuration operations) are decided by the schedule-controlled streams of harness/props/c13.go
+     (oracle strength; the honest-world LTS is C14's).  What IS proved about concurrency is the
+     interference-closed step: any behaviour of the other lookups of the same client (env_ok) and of a
+     foreign writer of the configuration, at every point where mergeLatestMem / mergeLatest re-read
+     shared state.
+   * "accepted" observes the states between lookups: a head installed and superseded by the stored head
+     within one mergeLatest is not in the set (it is a prefix of the stored head by the check that
+     superseded it).
+   * consistent_iff_check_tree is relative to a ground-truth log; the order theorems
+     (C13_consistent_trans / _prefixes / _same_size) need none. *)
